@@ -396,6 +396,9 @@ enum Relation {
     /// rows(original) ⊆ rows(transformed)
     OldSubsetOfNew,
     SameMultiset,
+    /// same multiset of rows once every fold's element order is canonicalised: reordering
+    /// selections inside a fold legitimately changes the order in which its elements are produced
+    SameMultisetModuloFoldElementOrder,
     SameSequenceUpToRenaming(BTreeMap<String, String>),
     /// rows(t1) ⊎ rows(t2) == rows(original)
     Partition(Box<Workload>),
@@ -439,6 +442,17 @@ pub fn case_c23(cx: &mut CaseBridge<'_, '_>, sched: &mut Tape) -> Result<(), Har
         Relation::NewSubsetOfOld => included(&eb.rows, &ea.rows).map(|d| format!("transformed query has a row the original lacks: {d}")),
         Relation::OldSubsetOfNew => included(&ea.rows, &eb.rows).map(|d| format!("original row missing after the transformation: {d}")),
         Relation::SameMultiset => rows_differ(&ea.rows, &eb.rows, false),
+        Relation::SameMultisetModuloFoldElementOrder => {
+            let mut ra = ea.rows.clone();
+            let mut rb = eb.rows.clone();
+            for r in ra.iter_mut() {
+                crate::model::canon_fold_lists(&w_orig.q.root, "", r);
+            }
+            for r in rb.iter_mut() {
+                crate::model::canon_fold_lists(&w2.q.root, "", r);
+            }
+            rows_differ(&ra, &rb, false)
+        }
         Relation::SameSequenceUpToRenaming(map) => {
             let renamed: Vec<Row> = ea
                 .rows
@@ -784,7 +798,7 @@ fn build_relation(
             let n = node_at_mut(&mut q.root, &path);
             n.items.swap(i, i + 1);
             let w2 = rebuild(w, w.world.clone(), q, w.args.clone()).ok()?;
-            Some(("reorder-sibling-selections", w2, Relation::SameMultiset, None))
+            Some(("reorder-sibling-selections", w2, Relation::SameMultisetModuloFoldElementOrder, None))
         }
     }
 }
